@@ -136,6 +136,9 @@ def work(job):
         t = trees.gen_tree(rnd, nfiles=rnd.choice([1, 2, 4]), stmts=(1, 12), structured=structured, idclass=rnd.choice(["dense", "gaps", "mid"]),
                            label="c%d" % i, complete_prob=1.1)
         files = dict(t.files)
+        if rnd.random() < 0.3:
+            # nothing the tool looks at: macros not used yet, or every use ignored
+            files = {"src/lib.rs": b"pub mod a;\n", "src/a.rs": b"fn a() {\n    println!(\"x\");\n    // breadlog:ignore\n    info!(\"ignored\");\n}\n"}
         use_cache = rnd.choice([None, None, True])
         lock = rnd.choice([None, None, "next_reference_id: [torn\n", "<<<<<<< HEAD\nnext_reference_id: 4\n=======\nnext_reference_id: 9\n>>>>>>> b\n", ""])
     elif kind == "corpus":
